@@ -374,11 +374,14 @@ def _bfs_tiny(ctx, ad, what, insts_quick=40, insts_thorough=150, max_leaves=3000
     for g in range(total):
         n = ctx.rng.choice([2, 3] if ctx.tier == "quick" else [2, 3, 3, 4])
         inst = ad.gen_instance(ctx.rng, n, ctx.rng.choice(ad.kinds()), flags=combos[ctx.rng.randrange(16)])
-        td = env.reset(ad.to_td([inst]))
+        # every second instance is expanded next to a companion row of the complementary variant (mixed batch)
+        fl = (inst["open"], any(d != 0 for d in inst["dB"]), inst["limit"] is not None, any(l is not None for l in inst["late"]))
+        comp = [ad.gen_instance(ctx.rng, n, "random", flags=(not fl[0], fl[1], not fl[2], not fl[3]))] if g % 2 == 0 else []
+        td = env.reset(ad.to_td([inst] + comp))
         prefixes, leaves, depth = [[]], [], 0
         while prefixes and len(leaves) < max_leaves:
             mask = td["action_mask"]
-            done = td["done"].reshape(len(prefixes)).tolist()
+            done = td["done"].reshape(len(prefixes) + len(comp)).tolist()
             idx, acts, nxt = [], [], []
             for r, pre in enumerate(prefixes):
                 if done[r]:
@@ -396,6 +399,9 @@ def _bfs_tiny(ctx, ad, what, insts_quick=40, insts_thorough=150, max_leaves=3000
                     nxt.append(pre + [a])
             if not nxt:
                 break
+            for r in range(len(prefixes), len(prefixes) + len(comp)):
+                idx.append(r)
+                acts.append(ctx.rng.choice([j for j, b in enumerate(mask[r].tolist()) if b]))
             td = td[torch.tensor(idx, dtype=torch.long)].clone()
             td.set("action", torch.tensor(acts, dtype=torch.long))
             td = env.step(td)["next"]
@@ -546,10 +552,16 @@ def run_c05(ctx):
             continue
         best_all, best_reach = None, None
         CH = 64
+        fl0 = (inst["open"], any(d != 0 for d in inst["dB"]), inst["limit"] is not None, any(l is not None for l in inst["late"]))
+        companions = [ad.gen_instance(ctx.rng, n, "random", flags=(not fl0[0], fl0[1], not fl0[2], not fl0[3])),
+                      ad.gen_instance(ctx.rng, n, "boundary", flags=(not fl0[0], not fl0[1], fl0[2], fl0[3]))] if g % 2 == 0 else []
+        ctx.count(f"mtvrp.c05.companion-rows={len(companions)}")
         for k in range(0, len(feas), CH):
             chunk = feas[k: k + CH]
             Lmax = max(len(c) for c, _ in chunk)
-            td = env.reset(ad.to_td([inst] * len(chunk)))
+            # the solutions are stepped next to companion rows of the complementary variant (open <-> closed, limit <->
+            # no limit, windows <-> none), so that a batch-global shortcut in the mask cannot hide behind a homogeneous batch
+            td = env.reset(ad.to_td([inst] * len(chunk) + companions))
             alive = [True] * len(chunk)
             for t in range(Lmax):
                 mask = td["action_mask"]
@@ -573,9 +585,11 @@ def run_c05(ctx):
                         acts.append(a)
                     else:
                         acts.append(first_ok)
+                for r in range(len(chunk), len(chunk) + len(companions)):
+                    acts.append(ctx.rng.choice([j for j, b in enumerate(mask[r].tolist()) if b]))
                 td.set("action", torch.tensor(acts, dtype=torch.long))
                 td = env.step(td)["next"]
-            done = td["done"].reshape(len(chunk)).tolist()
+            done = td["done"].reshape(len(chunk) + len(companions)).tolist()
             for r, (c, f) in enumerate(chunk):
                 ctx.case(("mtvrp", repr(inst), tuple(c)))
                 for h in equality_hits(inst, c):
@@ -742,13 +756,27 @@ def tightened(inst, sol, rng):
             cur.append(a)
     if not routes:
         return out
-    r = rng.choice(routes)
     if inst["limit"] is not None:
+        # the longest route: one unit below its length the limit is violated by that route only, and — for closed
+        # routes — only through its last leg (the way back), every prefix still being within the limit
+        r = max(routes, key=lambda rt: route_len(D, rt, inst["open"]))
         ln = route_len(D, r, inst["open"])
         need = max(D[0][j] + (0 if inst["open"] else D[j][0]) for j in range(1, inst["n"] + 1))
         if ln - 1 >= need:
             out.append(("limit-one-below-route-length", dict(inst, limit=ln - 1)))
         out.append(("limit-equals-route-length", dict(inst, limit=max(ln, need))))
+    # load: one demand raised so that its route carries capacity + 1 (kept <= capacity for the customer itself)
+    cap = inst["C"] * inst["capmul"]
+    for key in ("dL", "dB"):
+        cand = [(rt, j) for rt in routes for j in rt if inst[key][j] > 0 and len(rt) >= 2
+                and inst[key][j] + (cap + 1 - sum(inst[key][k] for k in rt)) <= cap]
+        if cand:
+            rt, j = rng.choice(cand)
+            load = sum(inst[key][k] for k in rt)
+            d1 = list(inst[key]); d1[j] += cap + 1 - load
+            out.append((f"{key}-load-one-above-capacity", dict(inst, **{key: d1})))
+            d0 = list(inst[key]); d0[j] += cap - load
+            out.append((f"{key}-load-equals-capacity", dict(inst, **{key: d0})))
     if any(l is not None for l in inst["late"]):
         # positions whose arrival is later than the direct arrival from the depot: the deadline can be moved onto
         # (or one unit below) the arrival time without making the customer unservable on its own
@@ -805,17 +833,21 @@ def run_c06(ctx):
         done_eps += B
     _judge_cases(ctx, ad, env, [(i, "witness:" + lab, sol) for lab, i, sol in c06_witnesses()])
     _batch_capacity_cases(ctx, ad, env)
+    _mixed_batch_checker(ctx, ad, env)
     _static_assert_cases(ctx, ad, env)
     _nonterminating_is_a_disagreement(ctx)
 
 
 def _judge_cases(ctx, ad, env, cases):
+    """solo verdicts: real checker (one-row batch) vs checker model vs Lean Spec; returns [(real_accepts, fields)]"""
     lines = [ad.line("check", i, s) for (i, lab, s) in cases]
     replies = ask_chunked(ctx, lines)
+    out = []
     for (inst, lab, sol), rep in zip(cases, replies):
         f = parse_fields(rep)
         if "check" not in f:
             ctx.disagreement("mtvrp: driver error", {"reply": rep, "inst": inst, "actions": sol})
+            out.append((None, f))
             continue
         td1 = env.reset(ad.to_td([inst]))
         acc = rl.checker_accepts(env, td1, torch.tensor([sol], dtype=torch.long))
@@ -835,6 +867,91 @@ def _judge_cases(ctx, ad, env, cases):
                           {"inst": inst, "variant": variant_of(inst), "label": lab, "actions": sol, "verdicts": f})
         ctx.sample({"env": "mtvrp", "label": lab, "variant": variant_of(inst), "inst": inst, "actions": sol,
                     "real_checker_accepts": acc, "spec_feasible": f.get("feas")}, cap=4)
+        out.append((acc, f))
+    return out
+
+
+def _mixed_flags(rng, R):
+    """feature flags (O, B, L, TW) for the R rows of a mixed batch: at least one open-route row and at least one
+    closed-route row with a finite distance limit, the rest random; a third row (if any) closed with time windows"""
+    fl = [[rng.random() < 0.5 for _ in range(4)] for _ in range(R)]
+    fl[0][0] = True
+    fl[1][0], fl[1][2] = False, True
+    if R >= 3:
+        fl[2][0], fl[2][3] = False, True
+    fl = [tuple(f) for f in fl]
+    rng.shuffle(fl)
+    return fl
+
+
+def _mixed_batch_checker(ctx, ad, env):
+    """`check_solution_validity` is called on whole batches by `get_reward`: on MIXED batches (rows of different
+    variants, speeds, capacities, limits) its verdict must be the conjunction of its verdicts on the rows — all rows
+    fine ⇒ accepted; exactly one faulty row (every kind of single-fault corruption of the actions, every constraint
+    tightened by one unit on the instance) ⇒ rejected.  Real batched verdict vs real row verdicts vs the Lean
+    `checkBatch` model, rows judged by the Lean Spec."""
+    total = ctx.budget(30, 300)
+    for g in range(total):
+        n = ctx.rng.choice([2, 3, 4, 6])
+        R = ctx.rng.choice([2, 3, 4, 5])
+        insts = [ad.gen_instance(ctx.rng, n, ctx.rng.choice(ad.kinds()), flags=fl) for fl in _mixed_flags(ctx.rng, R)]
+        for k, i in enumerate(insts):  # roomy limits on some rows, so that routes of several customers get tightened
+            if i["limit"] is not None and ctx.rng.random() < 0.5:
+                insts[k] = dict(i, limit=i["limit"] + ctx.rng.choice([300, 1000, 2048]))
+        try:
+            td0, ep = envcorr.run_batch(ctx, ad, env, insts, extra_pad=ctx.rng.choice([0, 0, 1]))
+        except envcorr.EpisodeFailed:
+            continue
+        L = len(ep.actions[0])
+        base = [(insts[r], list(ep.actions[r])) for r in range(R)]
+        variants = [("all-rows-mask-generated", None, base)]
+        closed_limited = [r for r in range(R) if not insts[r]["open"] and insts[r]["limit"] is not None]
+        others = [r for r in range(R) if r not in closed_limited]
+        ctx.rng.shuffle(others)
+        rows = list(range(R)) if ctx.tier == "thorough" else (closed_limited + others)[:3]
+        for r in rows:
+            inst, sol = base[r]
+            for lab, sol2 in mt_corruptions(ad, ctx.rng, inst, sol):
+                if len(sol2) == L:
+                    variants.append((lab, r, base[:r] + [(inst, list(sol2))] + base[r + 1:]))
+            for lab, i2 in tightened(inst, sol, ctx.rng):
+                variants.append((lab, r, base[:r] + [(i2, sol)] + base[r + 1:]))
+        # solo verdicts of every distinct (instance, actions) pair
+        keyof = lambda i, a: (repr(i), tuple(a))
+        distinct = {}
+        for lab, r, rws in variants:
+            for (i, a) in rws:
+                distinct.setdefault(keyof(i, a), (i, "batch-row:" + lab, a))
+        keys = list(distinct)
+        verd = dict(zip(keys, _judge_cases(ctx, ad, env, [distinct[k] for k in keys])))
+        lines = ["mtvrp.checkbatch " + " | ".join(ad.sections(i, a) for (i, a) in rws) for _, _, rws in variants]
+        replies = ask_chunked(ctx, lines, ch=16)
+        for (lab, r, rws), rep in zip(variants, replies):
+            fb = parse_fields(rep)
+            solo = [verd[keyof(i, a)][0] for (i, a) in rws]
+            feas = [verd[keyof(i, a)][1].get("feas") for (i, a) in rws]
+            if any(v is None for v in solo):
+                continue
+            tdb = env.reset(ad.to_td([i for (i, a) in rws]))
+            accb = rl.checker_accepts(env, tdb, torch.tensor([a for (i, a) in rws], dtype=torch.long))
+            expect = all(solo)
+            ctx.case(("mtvrp", "mixed-batch", lab, r, repr(rws)))
+            ctx.count(f"mtvrp.checker-batch.{'accept' if expect else 'reject'}-expected")
+            ctx.count(f"mtvrp.checker-batch.fault={lab}")
+            ctx.count(f"mtvrp.checker-batch.R={len(rws)}")
+            ctx.count(f"mtvrp.checker-batch.open-rows={sum(1 for (i, a) in rws if i['open'])}")
+            if fb.get("checkBatch") != ("1" if accb else "0"):
+                ctx.disagreement("mtvrp: batched checker model differs from the real batched checker (mixed batch)",
+                                 {"rows": [{"inst": i, "actions": a} for (i, a) in rws], "fault": lab, "real": accb, "model": fb})
+            if accb != expect:
+                bad = [k for k, v in enumerate(feas) if v == "0"]
+                ctx.violation("mtvrp:checker-batch-differs-from-rows",
+                              "the checker's verdict on a mixed batch is not the conjunction of its verdicts on the rows"
+                              + (f" (the batch is accepted although row {bad[0]} is infeasible by the Lean Spec and rejected on its own)"
+                                 if accb and bad else ""),
+                              {"fault": lab, "fault_row": r, "batch_accepts": accb,
+                               "rows": [{"variant": variant_of(i), "inst": i, "actions": a, "solo_accepts": sv, "spec_feasible": fv}
+                                        for (i, a), sv, fv in zip(rws, solo, feas)]})
 
 
 def _static_assert_cases(ctx, ad, env):
